@@ -14,6 +14,8 @@ FIXED = [
      "fix: boot_time() after a system clock update", "btime step + boot_time() -> same live process compares unequal, is_running() False"),
     ("C03", ["leak:PermissionError:children", "leak:PermissionError:children_rec"],
      "fix: Process.children() leaked a bare PermissionError", "EACCES on /proc/<pid>/stat inside ppid_map()"),
+    ("C03", ["malformed_value:threads:empty_list"], "fix: _raise_if_not_alive() probes /proc/PID/stat",
+     "threads() of a process in the #2418 teardown window (directory listed, files gone) returned []"),
     ("C04", ["pid_exists_raised:exc:OverflowError:pid_beyond_C_int"], "fix: pid_exists() raised OverflowError", "pid_exists(2**31)"),
     ("C04", ["concurrent_iter_exception:KeyError"], "fix: process_iter() from two threads could raise KeyError",
      "two iterators after a flagged reuse, one pre-emption"),
